@@ -46,9 +46,12 @@ type RoundTrip struct {
 	// (`unroll` bytes); with the unwinding assertion this makes it an upper
 	// bound of every encoding's length.
 	Longest *int64
+	// MaxLen: precondition on the length of a string argument (the wire format
+	// carries lengths as int32).
+	MaxLen *int64
 }
 
-var roundTripRe = regexp.MustCompile(`^encode\s+(\S+)\s+decode\s+(\S+)\s+unroll\s+(\d+)(?:\s+longest\s+(-?\d+))?$`)
+var roundTripRe = regexp.MustCompile(`^encode\s+(\S+)\s+decode\s+(\S+)\s+unroll\s+(\d+)(?:\s+longest\s+(-?\d+))?(?:\s+maxlen\s+(\d+))?$`)
 
 func parseRoundTrip(head, body, where string) (*RoundTrip, error) {
 	var props []string
@@ -69,6 +72,13 @@ func parseRoundTrip(head, body, where string) (*RoundTrip, error) {
 		}
 		rt.Longest = &v
 	}
+	if m[5] != "" {
+		v, err := strconv.ParseInt(m[5], 10, 64)
+		if err != nil {
+			return nil, fmt.Errorf("%s: roundtrip: maxlen: %v", where, err)
+		}
+		rt.MaxLen = &v
+	}
 	return rt, nil
 }
 
@@ -85,6 +95,9 @@ const (
 	rtBytePtr
 	rtTuple
 	rtFieldPtr
+	rtStr      // a string: symbolic length (bv, 64 bit signed); idx 1 = the bytes of the encoder's argument
+	rtErr      // a non-nil error value
+	rtSymSlice // a byte slice of symbolic length (bv); contents opaque
 )
 
 type rtVal struct {
@@ -120,11 +133,56 @@ type rtState struct {
 	over     bool   // a loop went beyond the unrolling
 	starved  bool   // the decoder asked for a byte beyond the input
 	panicked string // index out of range etc.
+	side     []rtSide        // conditions that must hold on this path (bounds of symbolic slices ...)
+	filled   map[string]bool // symbolic slices (by length term) filled from the argument's bytes
+}
+
+// rtSide: under the path condition at that point, neg must be unsatisfiable.
+type rtSide struct {
+	pc    []string
+	neg   string
+	label string
+}
+
+// an item of the byte stream: a byte (w == 8) or a blob (w == rtBlob) of s bytes,
+// the opaque contents of the encoder's string argument
+const rtBlob = -1
+
+func (s *rtState) require(neg, label string) {
+	s.side = append(s.side, rtSide{pc: append([]string{}, s.pc...), neg: neg, label: label})
+}
+
+// remaining: number of bytes not yet consumed from the input, as a 64-bit term
+func (s *rtState) remaining() string {
+	n := 0
+	t := ""
+	for _, it := range s.in[s.pos:] {
+		if it.w == rtBlob {
+			if t == "" {
+				t = it.s
+			} else {
+				t = "(bvadd " + t + " " + it.s + ")"
+			}
+		} else {
+			n++
+		}
+	}
+	if t == "" {
+		return bvConst(int64(n), 64)
+	}
+	if n == 0 {
+		return t
+	}
+	return "(bvadd " + t + " " + bvConst(int64(n), 64) + ")"
 }
 
 func (s *rtState) clone() *rtState {
 	n := &rtState{pc: append([]string{}, s.pc...), out: append([]bvVal{}, s.out...), writes: s.writes, in: s.in, pos: s.pos,
-		over: s.over, starved: s.starved, panicked: s.panicked, bufs: map[*rtBuf]map[int]bvVal{}}
+		over: s.over, starved: s.starved, panicked: s.panicked, bufs: map[*rtBuf]map[int]bvVal{},
+		side: append([]rtSide{}, s.side...), filled: map[string]bool{}}
+	for k := range s.filled {
+		n.filled[k] = true
+	}
 	for b, m := range s.bufs {
 		c := map[int]bvVal{}
 		for i, v := range m {
@@ -193,6 +251,10 @@ func (x *rtExec) val(f *rtFrame, v ssa.Value) rtVal {
 			u, _ := constant.Uint64Val(constant.ToInt(c.Value))
 			return rtVal{k: rtBV, bv: bvVal{fmt.Sprintf("(_ bv%d %d)", u, w), w, sg}}
 		}
+		if c.Value.Kind() == constant.String {
+			n := int64(len(constant.StringVal(c.Value)))
+			return rtVal{k: rtStr, bv: bvVal{bvConst(n, 64), 64, true}, konst: &n}
+		}
 		if c.Value.Kind() == constant.Bool {
 			b := constant.BoolVal(c.Value)
 			return rtVal{k: rtBool, b: fmt.Sprint(b), bk: &b}
@@ -204,6 +266,9 @@ func (x *rtExec) val(f *rtFrame, v ssa.Value) rtVal {
 	}
 	if _, ok := v.(*ssa.Function); ok {
 		return rtVal{k: rtOpaque, name: v.Name()}
+	}
+	if g, ok := v.(*ssa.Global); ok {
+		return rtVal{k: rtFieldPtr, name: "global " + g.Name()}
 	}
 	panic(unsupported("roundtrip: value " + v.Name() + " (" + v.String() + ") in " + f.fn.String()))
 }
@@ -277,6 +342,19 @@ func (x *rtExec) from(f *rtFrame, b *ssa.BasicBlock, start int, st *rtState) []r
 					p := x.val(f, ins.X)
 					switch p.k {
 					case rtFieldPtr:
+						if it, ok := ins.Type().Underlying().(*types.Interface); ok && strings.HasPrefix(p.name, "global ") {
+							isErr := false
+							for i := 0; i < it.NumMethods(); i++ {
+								if it.Method(i).Name() == "Error" {
+									isErr = true
+								}
+							}
+							if isErr {
+								// package-level error values are non-nil sentinels
+								f.env[ins] = rtVal{k: rtErr, name: p.name}
+								continue
+							}
+						}
 						f.env[ins] = rtVal{k: rtOpaque, name: p.name}
 					case rtBytePtr:
 						v, ok := st.bufs[p.buf][p.idx]
@@ -317,6 +395,14 @@ func (x *rtExec) from(f *rtFrame, b *ssa.BasicBlock, start int, st *rtState) []r
 				f.env[ins] = x.binop(ins, x.val(f, ins.X), x.val(f, ins.Y))
 			case *ssa.Convert:
 				v := x.val(f, ins.X)
+				if v.k == rtSymSlice && isString(ins.Type()) {
+					r := rtVal{k: rtStr, bv: v.bv}
+					if st.filled[v.bv.s] {
+						r.idx = 1
+					}
+					f.env[ins] = r
+					continue
+				}
 				w, sg, ok := bvTypeOf(ins.Type())
 				if !ok || v.k != rtBV {
 					panic(unsupported("roundtrip: conversion to " + ins.Type().String()))
@@ -330,6 +416,16 @@ func (x *rtExec) from(f *rtFrame, b *ssa.BasicBlock, start int, st *rtState) []r
 				f.env[ins] = x.val(f, ins.X)
 			case *ssa.ChangeInterface:
 				f.env[ins] = x.val(f, ins.X)
+			case *ssa.MakeInterface:
+				f.env[ins] = x.val(f, ins.X)
+			case *ssa.MakeSlice:
+				n := x.val(f, ins.Len)
+				if n.k != rtBV || !isByteSlice(ins.Type()) {
+					panic(unsupported("roundtrip: make of " + ins.Type().String()))
+				}
+				l := bvVal{bvResize(n.bv, 64), 64, true}
+				st.require("(bvslt "+l.s+" "+bvConst(0, 64)+")", "make([]byte, n) with negative n at "+x.e.pos(ins.Pos()))
+				f.env[ins] = rtVal{k: rtSymSlice, bv: l}
 			case *ssa.FieldAddr:
 				fld := ins.X.Type().Underlying().(*types.Pointer).Elem().Underlying().(*types.Struct).Field(ins.Field)
 				if at, ok := fld.Type().Underlying().(*types.Array); ok {
@@ -358,7 +454,14 @@ func (x *rtExec) from(f *rtFrame, b *ssa.BasicBlock, start int, st *rtState) []r
 				if ins.High != nil {
 					v := x.val(f, ins.High)
 					if v.konst == nil {
-						panic(unsupported("roundtrip: symbolic slice bound"))
+						if base.k != rtBufPtr || lo != 0 || v.k != rtBV {
+							panic(unsupported("roundtrip: symbolic slice bound"))
+						}
+						l := bvVal{bvResize(v.bv, 64), 64, true}
+						st.require("(or (bvslt "+l.s+" "+bvConst(0, 64)+") (bvsgt "+l.s+" "+bvConst(int64(base.hi), 64)+"))",
+							fmt.Sprintf("slice bounds [0:n] of a %d-byte buffer at %s", base.hi, x.e.pos(ins.Pos())))
+						f.env[ins] = rtVal{k: rtSymSlice, bv: l}
+						continue
 					}
 					hi = int(*v.konst)
 				}
@@ -449,6 +552,10 @@ func (x *rtExec) from(f *rtFrame, b *ssa.BasicBlock, start int, st *rtState) []r
 func (x *rtExec) binop(ins *ssa.BinOp, l, r rtVal) rtVal {
 	switch ins.Op {
 	case token.EQL, token.NEQ, token.LSS, token.LEQ, token.GTR, token.GEQ:
+		if (l.k == rtNilErr || l.k == rtErr) && (r.k == rtNilErr || r.k == rtErr) && (l.k == rtNilErr || r.k == rtNilErr) {
+			b := (l.k == r.k) == (ins.Op == token.EQL)
+			return rtVal{k: rtBool, b: fmt.Sprint(b), bk: &b}
+		}
 		if l.k == rtNilErr || r.k == rtNilErr {
 			if l.k != r.k {
 				panic(unsupported("roundtrip: comparison of an unknown error value"))
@@ -566,7 +673,31 @@ func (x *rtExec) call(f *rtFrame, ins *ssa.Call, st *rtState) []rtRet {
 			}
 			st.writes++
 			return []rtRet{{st: st, res: []rtVal{rtInt(int64(s.hi-s.lo), 64, true), {k: rtNilErr}}}}
+		case "WriteByte":
+			b := x.val(f, cc.Args[0])
+			if b.k != rtBV || b.bv.w != 8 {
+				panic(unsupported("roundtrip: WriteByte of " + cc.Args[0].String()))
+			}
+			st.out = append(st.out, b.bv)
+			st.writes++
+			return []rtRet{{st: st, res: []rtVal{{k: rtNilErr}}}}
+		case "WriteString":
+			s := x.val(f, cc.Args[0])
+			if s.k != rtStr {
+				panic(unsupported("roundtrip: WriteString of " + cc.Args[0].String()))
+			}
+			st.out = append(st.out, bvVal{s.bv.s, rtBlob, false})
+			st.writes++
+			r := rtVal{k: rtBV, bv: s.bv, konst: s.konst}
+			return []rtRet{{st: st, res: []rtVal{r, {k: rtNilErr}}}}
+		case "RemainingBytes":
+			return []rtRet{{st: st, res: []rtVal{{k: rtBV, bv: bvVal{st.remaining(), 64, false}}}}}
 		case "ReadByte":
+			if st.pos < len(st.in) && st.in[st.pos].w == rtBlob {
+				// a byte of the string's contents would be taken for protocol data
+				st.starved = true
+				return []rtRet{{st: st}}
+			}
 			if st.pos >= len(st.in) {
 				st.starved = true
 				return []rtRet{{st: st}}
@@ -582,9 +713,41 @@ func (x *rtExec) call(f *rtFrame, ins *ssa.Call, st *rtState) []rtRet {
 			f.env[ins] = rtVal{k: rtOpaque, name: b.Name()}
 			return nil
 		}
+		if b.Name() == "len" {
+			a := x.val(f, cc.Args[0])
+			switch a.k {
+			case rtStr, rtSymSlice:
+				f.env[ins] = rtVal{k: rtBV, bv: a.bv, konst: a.konst}
+				return nil
+			case rtSlice:
+				f.env[ins] = rtInt(int64(a.hi-a.lo), 64, true)
+				return nil
+			}
+		}
 		panic(unsupported("roundtrip: builtin " + b.Name()))
 	}
 	callee := cc.StaticCallee()
+	if callee != nil && callee.String() == "io.ReadFull" {
+		buf := x.val(f, cc.Args[1])
+		if buf.k != rtSymSlice {
+			panic(unsupported("roundtrip: io.ReadFull into " + cc.Args[1].String()))
+		}
+		if st.pos >= len(st.in) || st.in[st.pos].w != rtBlob {
+			// protocol bytes would be taken for the string's contents (or nothing is left)
+			st.starved = true
+			return []rtRet{{st: st}}
+		}
+		blob := st.in[st.pos]
+		// the blob must hold that many bytes (else ErrUnexpectedEOF), and what is
+		// left of it afterwards is accounted for by the final obligation
+		st.require("(bvsgt "+buf.bv.s+" "+blob.s+")", "io.ReadFull asks for more bytes than the string has")
+		st.filled[buf.bv.s] = true
+		rest := "(bvsub " + blob.s + " " + buf.bv.s + ")"
+		in := append([]bvVal{}, st.in...)
+		in[st.pos] = bvVal{rest, rtBlob, false}
+		st.in = in
+		return []rtRet{{st: st, res: []rtVal{{k: rtBV, bv: buf.bv}, {k: rtNilErr}}}}
+	}
 	if callee == nil || callee.Pkg != x.pkg {
 		panic(unsupported("roundtrip: call of " + cc.Value.String()))
 	}
@@ -593,6 +756,15 @@ func (x *rtExec) call(f *rtFrame, ins *ssa.Call, st *rtState) []rtRet {
 		args = append(args, x.val(f, a))
 	}
 	return x.run(callee, args, st)
+}
+
+func isByteSlice(t types.Type) bool {
+	sl, ok := t.Underlying().(*types.Slice)
+	if !ok {
+		return false
+	}
+	b, ok := sl.Elem().Underlying().(*types.Basic)
+	return ok && b.Kind() == types.Uint8
 }
 
 // verifyRoundTrip generates the obligations of one roundtrip directive.
@@ -616,23 +788,35 @@ func (e *Engine) verifyRoundTrip(ps *PkgSpec, rt *RoundTrip) (res *FuncResult) {
 		return res
 	}
 	x := &rtExec{e: e, pkg: enc.Pkg, unroll: rt.Unroll, recv: &rtBuf{id: 1}}
-	var decls []string
+	var decls, pre []string
 	var args []rtVal
-	var intArgs []rtVal
+	var dataArgs []rtVal
 	for _, p := range enc.Params {
 		if w, sg, ok := bvTypeOf(p.Type()); ok {
 			name := "arg_" + p.Name()
 			decls = append(decls, fmt.Sprintf("(declare-fun %s () (_ BitVec %d))", name, w))
 			v := rtVal{k: rtBV, bv: bvVal{name, w, sg}}
 			args = append(args, v)
-			intArgs = append(intArgs, v)
+			dataArgs = append(dataArgs, v)
+		} else if isString(p.Type()) {
+			// a string: its length is symbolic, its bytes are an opaque blob
+			name := "arg_len_" + p.Name()
+			decls = append(decls, fmt.Sprintf("(declare-fun %s () (_ BitVec 64))", name))
+			pre = append(pre, "(bvsle "+bvConst(0, 64)+" "+name+")")
+			if rt.MaxLen != nil {
+				pre = append(pre, "(bvsle "+name+" "+bvConst(*rt.MaxLen, 64)+")")
+			}
+			v := rtVal{k: rtStr, bv: bvVal{name, 64, true}, idx: 1}
+			args = append(args, v)
+			dataArgs = append(dataArgs, v)
 		} else {
 			args = append(args, rtVal{k: rtOpaque, name: p.Name()})
 		}
 	}
-	if len(intArgs) != 1 {
-		panic(unsupported("roundtrip: encoder with exactly one integer argument expected"))
+	if len(dataArgs) != 1 {
+		panic(unsupported("roundtrip: encoder with exactly one integer or string argument expected"))
 	}
+	arg := dataArgs[0]
 	base := pkgBase(ps.Pkg) + ".roundtrip/" + rt.Name
 	add := func(clause string, pc []string, negGoal string, trail ...string) {
 		ob := &Obligation{Kind: "roundtrip", Clause: clause, Pos: rt.Where, Props: rt.Props, Trail: trail}
@@ -640,6 +824,9 @@ func (e *Engine) verifyRoundTrip(ps *PkgSpec, rt *RoundTrip) (res *FuncResult) {
 		ob.Func = "roundtrip " + rt.Name
 		var sb strings.Builder
 		sb.WriteString("(set-option :produce-models true)\n(set-logic QF_BV)\n" + strings.Join(decls, "\n") + "\n")
+		for _, p := range pre {
+			sb.WriteString("(assert " + p + ")\n")
+		}
 		for _, p := range pc {
 			sb.WriteString("(assert " + p + ")\n")
 		}
@@ -648,11 +835,29 @@ func (e *Engine) verifyRoundTrip(ps *PkgSpec, rt *RoundTrip) (res *FuncResult) {
 		ob.NegGoal = negGoal
 		e.obls = append(e.obls, ob)
 	}
-	st0 := &rtState{bufs: map[*rtBuf]map[int]bvVal{x.recv: {}}}
+	sides := func(clause string, prefix []string, st *rtState) {
+		for _, sd := range st.side {
+			add(clause, append(append([]string{}, prefix...), sd.pc...), sd.neg, sd.label)
+		}
+	}
+	nbytes := func(items []bvVal) (int, int) {
+		b, bl := 0, 0
+		for _, it := range items {
+			if it.w == rtBlob {
+				bl++
+			} else {
+				b++
+			}
+		}
+		return b, bl
+	}
+	st0 := &rtState{bufs: map[*rtBuf]map[int]bvVal{x.recv: {}}, filled: map[string]bool{}}
 	encPaths := x.run(enc, args, st0)
 	nEnc, nDec := 0, 0
 	var lens []string
+	seenLen := map[int]bool{}
 	for _, ep := range encPaths {
+		sides("encoder_does_not_panic", nil, ep.st)
 		switch {
 		case ep.st.over:
 			add("encoder_needs_at_most_"+strconv.Itoa(rt.Unroll)+"_iterations", ep.st.pc, "true", "encoder path beyond the unrolling")
@@ -662,16 +867,29 @@ func (e *Engine) verifyRoundTrip(ps *PkgSpec, rt *RoundTrip) (res *FuncResult) {
 			continue
 		}
 		nEnc++
-		k := len(ep.st.out)
-		lens = append(lens, strconv.Itoa(k))
-		if ep.st.writes != 1 {
+		k, blobs := nbytes(ep.st.out)
+		if !seenLen[k] {
+			seenLen[k] = true
+			lens = append(lens, strconv.Itoa(k))
+		}
+		wantWrites := 1
+		if arg.k == rtStr {
+			// the length prefix, then the bytes of the string, in this order
+			wantWrites = 2
+			if blobs != 1 || ep.st.out[len(ep.st.out)-1].w != rtBlob || ep.st.out[len(ep.st.out)-1].s != arg.bv.s {
+				add("encoder_writes_the_prefix_then_the_string", ep.st.pc, "true", fmt.Sprintf("%d string writes", blobs))
+				continue
+			}
+		}
+		if ep.st.writes != wantWrites {
 			add("encoder_writes_once", ep.st.pc, "true", fmt.Sprintf("%d Write calls", ep.st.writes))
 		}
 		if len(ep.res) > 0 && ep.res[len(ep.res)-1].k != rtNilErr {
-			panic(unsupported("roundtrip: encoder error result is not the transport's"))
+			add("encoder_reports_no_error", ep.st.pc, "true", "the encoder returns an error that is not the transport's")
+			continue
 		}
 		if rt.Longest != nil && k != rt.Unroll {
-			a := intArgs[0].bv
+			a := arg.bv
 			add(fmt.Sprintf("longest_encoding_at_%d", *rt.Longest), ep.st.pc, "(= "+a.s+" "+bvConst(*rt.Longest, a.w)+")", fmt.Sprintf("encoder path of length %d", k))
 		}
 		// cover: the path is feasible (vacuity guard)
@@ -679,13 +897,13 @@ func (e *Engine) verifyRoundTrip(ps *PkgSpec, rt *RoundTrip) (res *FuncResult) {
 		cv.Name = base + ".cover.len" + strconv.Itoa(k)
 		cv.Func = "roundtrip " + rt.Name
 		cv.Query = "(set-logic QF_BV)\n" + strings.Join(decls, "\n") + "\n"
-		for _, p := range ep.st.pc {
+		for _, p := range append(append([]string{}, pre...), ep.st.pc...) {
 			cv.Query += "(assert " + p + ")\n"
 		}
 		cv.Query += "(check-sat)\n"
 		e.covers = append(e.covers, cv)
 		// decode exactly these bytes
-		dst := &rtState{bufs: map[*rtBuf]map[int]bvVal{x.recv: {}}, in: ep.st.out}
+		dst := &rtState{bufs: map[*rtBuf]map[int]bvVal{x.recv: {}}, in: ep.st.out, filled: map[string]bool{}}
 		var dargs []rtVal
 		for _, p := range dec.Params {
 			if _, _, ok := bvTypeOf(p.Type()); ok {
@@ -697,26 +915,37 @@ func (e *Engine) verifyRoundTrip(ps *PkgSpec, rt *RoundTrip) (res *FuncResult) {
 		for _, dp := range x.run(dec, dargs, dst) {
 			nDec++
 			pc := append(append([]string{}, ep.st.pc...), dp.st.pc...)
+			sides(clause, ep.st.pc, dp.st)
 			switch {
 			case dp.st.starved:
-				add(clause, pc, "true", fmt.Sprintf("decoder asks for byte %d of %d", dp.st.pos+1, k))
+				add(clause, pc, "true", fmt.Sprintf("decoder asks for protocol byte %d of %d", dp.st.pos+1, k))
 			case dp.st.over:
 				add(clause, pc, "true", "decoder path beyond the unrolling")
 			case dp.st.panicked != "":
 				add(clause, pc, "true", "decoder: "+dp.st.panicked)
 			default:
-				if len(dp.res) < 1 || dp.res[0].k != rtBV {
+				if len(dp.res) < 1 || (dp.res[0].k != rtBV && dp.res[0].k != rtStr) || dp.res[0].k != arg.k {
 					panic(unsupported("roundtrip: decoder result"))
 				}
-				trail := fmt.Sprintf("decoder consumed %d of %d bytes", dp.st.pos, k)
-				if dp.st.pos != k || (len(dp.res) > 1 && dp.res[len(dp.res)-1].k != rtNilErr) {
+				db, _ := nbytes(dp.st.in[:dp.st.pos])
+				trail := fmt.Sprintf("decoder consumed %d of %d protocol bytes", db, k)
+				if db != k || (len(dp.res) > 1 && dp.res[len(dp.res)-1].k != rtNilErr) {
 					add(clause, pc, "true", trail+" (or reports an error)")
 					continue
 				}
-				a := intArgs[0].bv
+				a := arg.bv
 				r := dp.res[0].bv
 				if r.w != a.w {
 					panic(unsupported("roundtrip: decoder result width differs from the encoder argument"))
+				}
+				if arg.k == rtStr {
+					// same length, the bytes are the argument's (or there are none), nothing left unread
+					neg := "(not (and (= " + r.s + " " + a.s + ") (= " + dp.st.remaining() + " " + bvConst(0, 64) + ")))"
+					if dp.res[0].idx != 1 {
+						neg = "(not (and (= " + r.s + " " + bvConst(0, 64) + ") (= " + a.s + " " + bvConst(0, 64) + ")))"
+					}
+					add(clause, pc, neg, trail)
+					continue
 				}
 				add(clause, pc, "(not (= "+r.s+" "+a.s+"))", trail)
 			}
@@ -725,7 +954,14 @@ func (e *Engine) verifyRoundTrip(ps *PkgSpec, rt *RoundTrip) (res *FuncResult) {
 	if nEnc == 0 {
 		panic(unsupported("roundtrip: no encoder path"))
 	}
-	res.Notes = append(res.Notes, fmt.Sprintf("roundtrip %s: %d encoder paths (lengths %s), %d decoder paths, loops unrolled %d times with unwinding assertions; exact machine arithmetic (QF_BV), all inputs; same-package callees executed in place", rt.Name, nEnc, strings.Join(lens, ","), nDec, rt.Unroll))
+	note := fmt.Sprintf("roundtrip %s: %d encoder paths (lengths %s), %d decoder paths, loops unrolled %d times with unwinding assertions; exact machine arithmetic (QF_BV), all inputs; same-package callees executed in place", rt.Name, nEnc, strings.Join(lens, ","), nDec, rt.Unroll)
+	if arg.k == rtStr {
+		note += "; the string argument is a symbolic length and an opaque blob of that many bytes handed to the transport's WriteString and fetched by io.ReadFull"
+		if rt.MaxLen != nil {
+			note += fmt.Sprintf("; PRECONDITION: the string has at most %d bytes", *rt.MaxLen)
+		}
+	}
+	res.Notes = append(res.Notes, note)
 	res.Paths = nEnc + nDec
 	return res
 }
